@@ -322,6 +322,11 @@ impl Database {
             self.pager.clone(),
             self.catalog.clone(),
         )?;
+        // Recovery replays the log through the ordinary executors. Their log records used to be appended to the
+        // very log being replayed, as an unfinished transaction: if the process died again once they had reached
+        // the disk (the checkpoint below forces the log first), the next recovery redid the committed work and then
+        // undid the copy logged here - committed tables and rows were gone, or the database no longer opened.
+        let logger = logger.silenced();
         let child = tx_ctx.create_child()?;
         let pager = self.pager.clone();
         // Begin a recovery transaction
